@@ -22,8 +22,8 @@
 (*    StepUP   update_primary:   p2m := p2m * match_1d(old faces, new faces) *)
 (*             (dup = TRUE: a primary face that feeds k mortar cells is     *)
 (*             listed k times and its weights are multiplied by k - what    *)
-(*             match_grids_along_1d_mortar does today in the simplest       *)
-(*             cases; only used to show that the clauses can fail)          *)
+(*             match_grids_along_1d_mortar did before fix d70d13e66 in the  *)
+(*             simplest cases; only used to show that the clauses can fail) *)
 (*    mortar_to_X_int = transpose(X_to_mortar_avg), mortar_to_X_avg =       *)
 (*    transpose(X_to_mortar_int)                           (_set_projections) *)
 (*                                                                         *)
